@@ -73,6 +73,13 @@ type Closure struct {
 
 type BigVal struct{ t *Term } // Int sort; nil t = zero
 
+// FloatVal is the payload of a math/big.Float struct: a Real-sorted term plus precision/mode.
+type FloatVal struct {
+	t    *Term // nil = 0
+	prec uint
+	mode int // big.RoundingMode
+}
+
 type Poison struct{ why string }
 
 // StubObj is an opaque object behind an interface: every method is a no-op returning zero values.
@@ -231,6 +238,9 @@ func (in *Interp) zero(t types.Type) Value {
 			case "math/big":
 				if o.Name() == "Int" {
 					return BigVal{}
+				}
+				if o.Name() == "Float" {
+					return FloatVal{}
 				}
 			case "reflect":
 				if o.Name() == "Value" {
